@@ -77,6 +77,7 @@ func (o *VerifC38Own) Check() (seen []byte, accepted bool, ok bool) {
 // Handshake runs the real Session.Handshake and, if it fails, sends the error
 // packet Server.onConn sends.
 func (o *VerifC38Own) Handshake() VerifC38HandshakeResult {
+	o.read = false // an earlier ReadResponse is superseded
 	r := o.VerifC38Session.Handshake()
 	if r.Err != nil {
 		o.failed(r.Err)
